@@ -4,7 +4,7 @@
 // # C11 findings
 //
 // All of these fail TestC11Sched on the unmodified /repo (commit 09bd0b4) + hooks.patch (add-only yield points, build tag
-// verif).  Seven root causes, 28 signatures (one signature per family/shape, as the generator can only steer around a
+// verif).  Six root causes, 28 signatures (one signature per family/shape, as the generator can only steer around a
 // shape).  Every signature has a replay file under harness/props/c11/repro/<family>-<shape>.json (format of
 // $VERIF_LASTFAIL) that was replayed three times in fresh processes on the hooked tree (REPLAY-FAIL with the listed
 // signature, 3 of 3) and once on the hooked tree with all six fix patches applied (REPLAY-PASS).  Run one with
